@@ -41,6 +41,7 @@ pub struct Builder {
     locals: Vec<String>,
     arrays: Vec<String>,
     fn_names: Vec<String>,
+    contract_names: Vec<String>,
     in_loop: bool,
 }
 
@@ -53,7 +54,7 @@ const VALUE_TYPES: [&str; 12] =
 
 impl Builder {
     pub fn new(rng: &Rng, cfg: Cfg) -> Builder {
-        Builder { rng: Rng::from_seed(rng.next()), ids: IdGen(0), cfg, n: 0, state_vars: vec![], locals: vec![], arrays: vec![], fn_names: vec![], in_loop: false }
+        Builder { rng: Rng::from_seed(rng.next()), ids: IdGen(0), cfg, n: 0, state_vars: vec![], locals: vec![], arrays: vec![], fn_names: vec![], contract_names: vec![], in_loop: false }
     }
     fn id(&mut self) -> Id {
         self.ids.next()
@@ -347,8 +348,14 @@ impl Builder {
                     let s = self.rng.ps(&[
                         "\"short\"", "'thirty-one bytes long string 01'", "\"thirty-two bytes long string  012\"", "\"thirty-three bytes long string 0123\"",
                         "\"a revert reason that is considerably longer than thirty-two bytes in total\"", "\"\"",
+                        "unicode\"éééééééééééééééé\"", "unicode\"aaaaaaaaaaaaaaaaaaaaaaaaaaaaaaé\"", "unicode\"ééééééééééééééé\"", "\"ünïcödé in a plain literal, 32+ b\"",
                     ]).to_string();
-                    args.push(self.ex(E::Str(vec![s])));
+                    if self.rng.chance(1, 8) {
+                        // a message made of several adjacent literals
+                        args.push(self.ex(E::Str(vec!["\"too\"".into(), "\"small, really: well under thirty-two\"".into()])));
+                    } else {
+                        args.push(self.ex(E::Str(vec![s])));
+                    }
                 }
                 self.call(c, args)
             }
@@ -361,7 +368,31 @@ impl Builder {
             15 | 16 | 17 => {
                 // shift_math forms
                 let l = self.rng.ps(&["2", "4", "8", "16", "1024", "1_024", "3", "6", "10", "0", "1", "4294967296", "1000000000000000000", "9223372036854775808"]).to_string();
-                let lit = if self.rng.chance(1, 8) { self.ex(E::Num("1".into(), "18".into())) } else { self.num(&l) };
+                let lit = if self.rng.chance(1, 8) {
+                    self.ex(E::Num("1".into(), "18".into()))
+                } else if self.rng.chance(1, 4) {
+                    // 2^k for a random k in 1..=255 (and its neighbour 2^k + 1 as a near miss)
+                    let k = self.rng.range(1, 255);
+                    let mut d: Vec<u8> = vec![1];
+                    for _ in 0..k {
+                        let mut carry = 0;
+                        for x in d.iter_mut() {
+                            let v = *x * 2 + carry;
+                            *x = v % 10;
+                            carry = v / 10;
+                        }
+                        if carry > 0 {
+                            d.push(carry);
+                        }
+                    }
+                    if self.rng.chance(1, 5) {
+                        d[0] += 1; // 2^k is even for k >= 1, so no carry
+                    }
+                    let s: String = d.iter().rev().map(|x| (b'0' + x) as char).collect();
+                    self.num(&s)
+                } else {
+                    self.num(&l)
+                };
                 let e = self.small_expr(d);
                 let op = *self.rng.pick(&[BinOp::Mul, BinOp::Div, BinOp::Mul, BinOp::Div, BinOp::Add, BinOp::Mod, BinOp::Pow, BinOp::Shl]);
                 if self.rng.chance(1, 3) && op == BinOp::Mul {
@@ -1172,7 +1203,8 @@ impl Builder {
                 } else {
                     None
                 };
-                bases.push((self.rng.ps(&["Base", "Ownable", "Lib.Mixin"]).to_string(), args));
+                let base_name = if !self.contract_names.is_empty() && self.rng.chance(1, 2) { self.rng.pick(&self.contract_names).clone() } else { self.rng.ps(&["Base", "Ownable", "Lib.Mixin"]).to_string() };
+                bases.push((base_name, args));
             }
         }
         let mut parts = vec![];
@@ -1208,6 +1240,9 @@ impl Builder {
         } else {
             parts.append(&mut vars);
             parts.append(&mut others);
+        }
+        if kind == "contract" || kind == "abstract contract" {
+            self.contract_names.push(name.clone());
         }
         Contract { id, kind, name, bases, parts }
     }
@@ -1278,6 +1313,14 @@ impl Builder {
                 _ => Item::Contract(self.contract()),
             };
             items.push(it);
+        }
+        // now and then the solidity pragma itself stands after the first definition (legal)
+        if self.cfg.pragma.is_some() && self.rng.chance(1, 10) {
+            if let Some(pos) = items.iter().position(|i| matches!(i, Item::Pragma(_, n, _) if n == "solidity")) {
+                let pr = items.remove(pos);
+                let at = self.rng.range(1.min(items.len()), items.len());
+                items.insert(at, pr);
+            }
         }
         // a late pragma now and then (placement of unrelated pragmas)
         if self.rng.chance(1, 8) {
